@@ -60,6 +60,46 @@ def make_world(seed, jitter):
                 r = w.read_from_transcript(t, mode="full", jitter=0, polya=False)
                 if r is not None:
                     r.truth["class"] = "hidden-isoform"
+    # NAGNAG-like loci: two annotated isoforms whose introns differ by 1..delta bp at ONE boundary (left or right); error-free
+    # reads of either isoform must still name their own isoform
+    if jitter > 0:
+        from vlib.world import Gene, Transcript
+        for ci, chrom in enumerate(w.chrom_order):
+            pos = max([g.end for g in w.genes if g.chrom == chrom] + [1000]) + 2500
+            for k in range(4):
+                if pos + 8000 > w.chrom_len(chrom):
+                    break
+                strand = rng.choice("+-")
+                ex = []
+                p = pos
+                for j in range(4):
+                    L_ = rng.randint(180, 320)
+                    ex.append((p, p + L_ - 1))
+                    p += L_ + rng.randint(500, 900)
+                d = rng.randint(1, min(jitter, 5))
+                side = ("left", "right")[k % 2]
+                j = rng.randint(0, 2)
+                exb = list(ex)
+                if side == "left":       # intron start differs: exon j ends d later
+                    exb[j] = (ex[j][0], ex[j][1] + d)
+                else:                    # intron end differs: exon j+1 starts d later
+                    exb[j + 1] = (ex[j + 1][0] + d, ex[j + 1][1])
+                gid = "NG%d_%d" % (ci + 1, k + 1)
+                g = Gene(gid, chrom, strand)
+                g.transcripts.append(Transcript(gid + ".tA", gid, chrom, strand, ex, True, "nagnag"))
+                g.transcripts.append(Transcript(gid + ".tB", gid, chrom, strand, exb, True, "nagnag"))
+                for t in g.transcripts:
+                    for intr in t.introns:
+                        w.plant_sites(chrom, intr, strand)
+                w.genes.append(g)
+                for t in g.transcripts:
+                    for _ in range(4):
+                        r = w.read_from_transcript(t, mode=rng.choice(("full", "full", "trunc_both")), jitter=0, polya=rng.random() < 0.5,
+                                                   flag=rng.choice((0, 16)))
+                        if r is not None:
+                            r.truth["class"] = "conforming-nagnag"
+                            r.truth["nagnag_side"] = side
+                pos = p + rng.randint(2500, 3500)
     return w
 
 
@@ -120,6 +160,19 @@ def run(chk, scratch):
             aligned = rd.aligned_exons()
             span = (aligned[0][0], aligned[-1][1])
             overl = [t for t in by_chr[rd.chrom] if not (t.end < span[0] or t.start > span[1])]
+            if cls == "conforming-nagnag":
+                T = iso[tr["src"]]
+                true_exons = [tuple(e) for e in tr["true_exons"]]
+                judged_c += 1
+                chk.note()
+                chk.nontrivial.add(("nagnag", tr.get("nagnag_side"), tr.get("mode"), preset))
+                if atype not in CONSISTENT:
+                    chk.violation("conforming-read-inconsistent:nagnag", "%s: error-free read %s of %s reported %s" % (desc, rd.name, T.id, atype), wit)
+                elif compat.full_length(T.exons, true_exons, 0) and T.id not in reported:
+                    chk.violation("full-length-read-lacks-source-isoform:near-identical-%s-site" % tr.get("nagnag_side"),
+                                  "%s: error-free full-length read %s of %s is reported on %s (%s) although its own isoform matches exactly" %
+                                  (desc, rd.name, T.id, sorted(reported)[:3], atype), wit)
+                continue
             if cls == "conforming":
                 T = iso[tr["src"]]
                 true_exons = [tuple(e) for e in tr["true_exons"]]
